@@ -10,6 +10,8 @@
 (*   worker : exists -> (duptrack | track) -> covert -> [share] -> add     *)
 (*   sweeper: collect -> remove* (one per collected index)                 *)
 (*   handler: count -> lookup -> [mark]                                    *)
+(*   reload : rcovert -> rphantom   (OnReload assigns the covert policy    *)
+(*            and then the phantom blocklist, field by field)              *)
 (* Protocol = "toctou": exists-check (read lock) and track (write lock)    *)
 (*   are separate sections (pre-fix code); "atomic": one write-locked      *)
 (*   check-and-track section (TrackRegIfNotExists).                        *)
@@ -22,7 +24,11 @@
 (***************************************************************************)
 EXTENDS Naturals, FiniteSets, Sequences, SequencesExt, TLC
 
-CONSTANTS Scenario, Protocol, SweepRecheck, ShareEnabled
+CONSTANTS Scenario, Protocol, SweepRecheck, ShareEnabled,
+          ReloadProtocol \* "snapshot": a reload replaces the whole configuration in one step AND an ingest works on the
+                         \*             configuration it read when it started (what serialisability needs);
+                         \* "atomic-swap": one-step reload, but every stage of an ingest reads the configuration in force;
+                         \* "as-found": field-by-field assignments (RegistrationManager.OnReload), no snapshot
 
 None == [none |-> TRUE]
 
@@ -61,15 +67,27 @@ Scen ==
          [msgs |-> [w1 |-> Msg("k1", "detector", FALSE), w2 |-> Msg("k1", "detector", FALSE),
                     w3 |-> Msg("k2", "api", TRUE), w4 |-> Msg("k2", "detector", FALSE)],
           init |-> [k1 |-> None, k2 |-> None], sweeper |-> FALSE, handler |-> "k1"]
+    [] Scenario = "reload_mixed" ->
+         [msgs |-> [w1 |-> Msg("k1", "api", FALSE)],
+          init |-> [k1 |-> None], sweeper |-> FALSE, handler |-> "none"]
+    [] Scenario = "reload_2workers" ->
+         [msgs |-> [w1 |-> Msg("k1", "api", FALSE), w2 |-> Msg("k2", "api", FALSE)],
+          init |-> [k1 |-> None, k2 |-> None], sweeper |-> FALSE, handler |-> "k1"]
     [] Scenario = "3same_live" ->
          [msgs |-> [w1 |-> Msg("k1", "api", TRUE), w2 |-> Msg("k1", "api", FALSE), w3 |-> Msg("k1", "detector", FALSE)],
           init |-> [k1 |-> None], sweeper |-> FALSE, handler |-> "k1"]
+
+\* Scenarios with a configuration reload.  The two configurations are chosen so that each alone refuses the registration
+\* (old: covert forbidden; new: phantom blocklisted) - only a mixture of the two admits it.
+HasReload == Scenario \in {"reload_mixed", "reload_2workers"}
+BlockedPhantom(v) == HasReload /\ v = "new"
+BlockedCovert(v) == HasReload /\ v = "old"
 
 Workers == DOMAIN Scen.msgs
 Keys == DOMAIN Scen.init
 HasSweeper == Scen.sweeper
 HasHandler == Scen.handler # "none"
-Procs == Workers \cup (IF HasSweeper THEN {"S"} ELSE {}) \cup (IF HasHandler THEN {"H"} ELSE {})
+Procs == Workers \cup (IF HasSweeper THEN {"S"} ELSE {}) \cup (IF HasHandler THEN {"H"} ELSE {}) \cup (IF HasReload THEN {"R"} ELSE {})
 M(w) == Scen.msgs[w]
 
 VARIABLES reg,      \* [Keys -> None | [valid, count, owner]]  owner = the worker whose object is stored ("init" for pre-existing)
@@ -82,10 +100,12 @@ VARIABLES reg,      \* [Keys -> None | [valid, count, owner]]  owner = the worke
           todo,     \* set of keys the sweeper collected
           saw,      \* the handler's lookup result
           crashed,  \* a nil dereference happened
+          cfg,      \* configuration in force: [pb, cp] versions of the phantom blocklist and of the covert policy
+          snap,     \* [Workers -> configuration the worker read when its ingest started]
           obs
 
-vars == <<reg, tmo, ann, upd, shares, resolved, pc, seen, todo, saw, crashed, obs>>
-view == <<reg, tmo, ann, upd, shares, resolved, pc, seen, todo, saw, crashed>>
+vars == <<reg, tmo, ann, upd, shares, resolved, pc, seen, todo, saw, crashed, cfg, snap, obs>>
+view == <<reg, tmo, ann, upd, shares, resolved, pc, seen, todo, saw, crashed, cfg, snap>>
 
 Expired(t) == t.old /\ ~t.used
 
@@ -93,14 +113,17 @@ Proj == [reg |-> [k \in Keys |-> IF reg[k] = None THEN [present |-> FALSE]
                                   ELSE [present |-> TRUE, valid |-> reg[k].valid, count |-> reg[k].count,
                                         resolved |-> IF reg[k].owner = "init" THEN TRUE ELSE resolved[reg[k].owner]]],
          tmo |-> [k \in Keys |-> IF tmo[k] = None THEN [present |-> FALSE] ELSE [present |-> TRUE, used |-> tmo[k].used]],
-         ann |-> ann, upd |-> upd, shares |-> shares, pc |-> pc]
+         ann |-> ann, upd |-> upd, shares |-> shares, pc |-> pc, cfg |-> cfg]
 
 Init ==
   /\ reg = [k \in Keys |-> IF Scen.init[k] = None THEN None ELSE [valid |-> Scen.init[k].valid, count |-> 1, owner |-> "init"]]
   /\ tmo = [k \in Keys |-> IF Scen.init[k] = None THEN None ELSE [old |-> Scen.init[k].old, used |-> Scen.init[k].used]]
   /\ ann = [k \in Keys |-> 0] /\ upd = [k \in Keys |-> 0] /\ shares = [k \in Keys |-> 0]
   /\ resolved = [w \in Workers |-> FALSE]
-  /\ pc = [p \in Procs |-> IF p \in Workers THEN "exists" ELSE IF p = "S" THEN "collect" ELSE "count"]
+  /\ pc = [p \in Procs |-> IF p \in Workers THEN (IF HasReload THEN "validate" ELSE "exists")
+                            ELSE IF p = "S" THEN "collect" ELSE IF p = "R" THEN "rcovert" ELSE "count"]
+  /\ cfg = [pb |-> "old", cp |-> "old"]
+  /\ snap = [w \in Workers |-> [pb |-> "old", cp |-> "old"]]
   /\ seen = [w \in Workers |-> FALSE]
   /\ todo = {} /\ saw = FALSE /\ crashed = FALSE
   /\ obs = [a |-> "Init"]
@@ -116,6 +139,14 @@ Obs(p, from) == obs' = [a |-> "Step", proc |-> p, from |-> from, to |-> pc'[p], 
 AfterCovert(w) == IF M(w).live THEN "done"
                   ELSE IF M(w).src = "detector" /\ ShareEnabled THEN "share" ELSE "add"
 
+\* ValidateRegistration: the phantom blocklist is read (non-detector sources)
+WValidate(w) ==
+  /\ pc[w] = "validate"
+  /\ pc' = [pc EXCEPT ![w] = IF M(w).src # "detector" /\ BlockedPhantom(cfg.pb) THEN "done" ELSE "exists"]
+  /\ snap' = [snap EXCEPT ![w] = cfg]
+  /\ UNCHANGED <<reg, tmo, ann, upd, shares, resolved, seen, todo, saw, crashed, cfg>>
+  /\ Obs(w, "validate")
+
 WExists(w) ==
   /\ pc[w] = "exists"
   /\ IF Protocol = "toctou"
@@ -126,36 +157,37 @@ WExists(w) ==
             /\ LET e == TrackEff(w, reg, tmo) IN reg' = e[1] /\ tmo' = e[2]
             /\ seen' = [seen EXCEPT ![w] = reg[M(w).key] # None]
             /\ pc' = [pc EXCEPT ![w] = IF reg[M(w).key] # None THEN "done" ELSE "covert"]
-  /\ UNCHANGED <<ann, upd, shares, resolved, todo, saw, crashed>>
+  /\ UNCHANGED <<ann, upd, shares, resolved, todo, saw, crashed, cfg, snap>>
   /\ Obs(w, "exists")
 
 WDupTrack(w) ==
   /\ pc[w] = "duptrack"
   /\ LET e == TrackEff(w, reg, tmo) IN reg' = e[1] /\ tmo' = e[2]
   /\ pc' = [pc EXCEPT ![w] = "done"]
-  /\ UNCHANGED <<ann, upd, shares, resolved, seen, todo, saw, crashed>>
+  /\ UNCHANGED <<ann, upd, shares, resolved, seen, todo, saw, crashed, cfg, snap>>
   /\ Obs(w, "duptrack")
 
 WTrack(w) ==
   /\ pc[w] = "track"
   /\ LET e == TrackEff(w, reg, tmo) IN reg' = e[1] /\ tmo' = e[2]
   /\ pc' = [pc EXCEPT ![w] = "covert"]
-  /\ UNCHANGED <<ann, upd, shares, resolved, seen, todo, saw, crashed>>
+  /\ UNCHANGED <<ann, upd, shares, resolved, seen, todo, saw, crashed, cfg, snap>>
   /\ Obs(w, "track")
 
 \* covert policy + overwrite of the object's covert with the resolved literal, then the liveness probe
 WCovert(w) ==
   /\ pc[w] = "covert"
-  /\ resolved' = [resolved EXCEPT ![w] = TRUE]
-  /\ pc' = [pc EXCEPT ![w] = AfterCovert(w)]
-  /\ UNCHANGED <<reg, tmo, ann, upd, shares, seen, todo, saw, crashed>>
+  /\ LET cp == IF ReloadProtocol = "snapshot" THEN snap[w].cp ELSE cfg.cp IN
+     /\ resolved' = [resolved EXCEPT ![w] = ~BlockedCovert(cp)]
+     /\ pc' = [pc EXCEPT ![w] = IF BlockedCovert(cp) THEN "done" ELSE AfterCovert(w)]
+  /\ UNCHANGED <<reg, tmo, ann, upd, shares, seen, todo, saw, crashed, cfg, snap>>
   /\ Obs(w, "covert")
 
 WShare(w) ==
   /\ pc[w] = "share"
   /\ shares' = [shares EXCEPT ![M(w).key] = @ + 1]
   /\ pc' = [pc EXCEPT ![w] = "add"]
-  /\ UNCHANGED <<reg, tmo, ann, upd, resolved, seen, todo, saw, crashed>>
+  /\ UNCHANGED <<reg, tmo, ann, upd, resolved, seen, todo, saw, crashed, cfg, snap>>
   /\ Obs(w, "share")
 
 \* r.register(): track if unknown; first validation announces New
@@ -168,14 +200,14 @@ WAdd(w) ==
      /\ tmo' = e[2]
      /\ ann' = IF first THEN [ann EXCEPT ![k] = @ + 1] ELSE ann
   /\ pc' = [pc EXCEPT ![w] = "done"]
-  /\ UNCHANGED <<upd, shares, resolved, seen, todo, saw, crashed>>
+  /\ UNCHANGED <<upd, shares, resolved, seen, todo, saw, crashed, cfg, snap>>
   /\ Obs(w, "add")
 
 SCollect ==
   /\ pc["S"] = "collect"
   /\ todo' = {k \in Keys : tmo[k] # None /\ Expired(tmo[k])}
   /\ pc' = [pc EXCEPT !["S"] = IF todo' = {} THEN "done" ELSE "remove"]
-  /\ UNCHANGED <<reg, tmo, ann, upd, shares, resolved, seen, saw, crashed>>
+  /\ UNCHANGED <<reg, tmo, ann, upd, shares, resolved, seen, saw, crashed, cfg, snap>>
   /\ Obs("S", "collect")
 
 SRemove ==
@@ -188,20 +220,20 @@ SRemove ==
                     THEN UNCHANGED <<reg, tmo>>
                     ELSE reg' = [reg EXCEPT ![k] = None] /\ tmo' = [tmo EXCEPT ![k] = None]
        /\ pc' = [pc EXCEPT !["S"] = IF todo' = {} THEN "done" ELSE "remove"]
-  /\ UNCHANGED <<ann, upd, shares, resolved, seen, saw>>
+  /\ UNCHANGED <<ann, upd, shares, resolved, seen, saw, cfg, snap>>
   /\ Obs("S", "remove")
 
 HK == Scen.handler
 HCount ==
   /\ pc["H"] = "count"
   /\ pc' = [pc EXCEPT !["H"] = IF reg[HK] # None THEN "lookup" ELSE "done"]
-  /\ UNCHANGED <<reg, tmo, ann, upd, shares, resolved, seen, todo, saw, crashed>>
+  /\ UNCHANGED <<reg, tmo, ann, upd, shares, resolved, seen, todo, saw, crashed, cfg, snap>>
   /\ Obs("H", "count")
 HLookup ==
   /\ pc["H"] = "lookup"
   /\ saw' = (reg[HK] # None /\ reg[HK].valid)
   /\ pc' = [pc EXCEPT !["H"] = IF saw' THEN "mark" ELSE "done"]
-  /\ UNCHANGED <<reg, tmo, ann, upd, shares, resolved, seen, todo, crashed>>
+  /\ UNCHANGED <<reg, tmo, ann, upd, shares, resolved, seen, todo, crashed, cfg, snap>>
   /\ Obs("H", "lookup")
 HMark ==
   /\ pc["H"] = "mark"
@@ -209,12 +241,25 @@ HMark ==
        THEN tmo' = [tmo EXCEPT ![HK].used = TRUE] /\ upd' = [upd EXCEPT ![HK] = @ + 1]
        ELSE UNCHANGED <<tmo, upd>>
   /\ pc' = [pc EXCEPT !["H"] = "done"]
-  /\ UNCHANGED <<reg, ann, shares, resolved, seen, todo, saw, crashed>>
+  /\ UNCHANGED <<reg, ann, shares, resolved, seen, todo, saw, crashed, cfg, snap>>
   /\ Obs("H", "mark")
 
-Next == \/ \E w \in Workers : WExists(w) \/ WDupTrack(w) \/ WTrack(w) \/ WCovert(w) \/ WShare(w) \/ WAdd(w)
+\* RegistrationManager.OnReload: plain assignments, covert policy first, phantom blocklist later
+RCovert == /\ pc["R"] = "rcovert"
+           /\ cfg' = IF ReloadProtocol # "as-found" THEN [pb |-> "new", cp |-> "new"] ELSE [cfg EXCEPT !.cp = "new"]
+           /\ pc' = [pc EXCEPT !["R"] = IF ReloadProtocol # "as-found" THEN "done" ELSE "rphantom"]
+           /\ UNCHANGED <<reg, tmo, ann, upd, shares, resolved, seen, todo, saw, crashed, snap>>
+           /\ Obs("R", "rcovert")
+RPhantom == /\ pc["R"] = "rphantom"
+            /\ cfg' = [cfg EXCEPT !.pb = "new"]
+            /\ pc' = [pc EXCEPT !["R"] = "done"]
+            /\ UNCHANGED <<reg, tmo, ann, upd, shares, resolved, seen, todo, saw, crashed, snap>>
+            /\ Obs("R", "rphantom")
+
+Next == \/ \E w \in Workers : WValidate(w) \/ WExists(w) \/ WDupTrack(w) \/ WTrack(w) \/ WCovert(w) \/ WShare(w) \/ WAdd(w)
         \/ (HasSweeper /\ (SCollect \/ SRemove))
         \/ (HasHandler /\ (HCount \/ HLookup \/ HMark))
+        \/ (HasReload /\ (RCovert \/ RPhantom))
 
 Spec == Init /\ [][Next]_vars /\ WF_vars(Next)
 
@@ -223,11 +268,15 @@ AllDone == \A p \in Procs : pc[p] = "done"
 \* ------------------- atomic meaning of each operation -------------------
 St0 == [reg |-> [k \in Keys |-> IF Scen.init[k] = None THEN None ELSE [valid |-> Scen.init[k].valid, count |-> 1]],
         tmo |-> [k \in Keys |-> IF Scen.init[k] = None THEN None ELSE [old |-> Scen.init[k].old, used |-> Scen.init[k].used]],
-        ann |-> [k \in Keys |-> 0], upd |-> [k \in Keys |-> 0], shares |-> [k \in Keys |-> 0]]
+        ann |-> [k \in Keys |-> 0], upd |-> [k \in Keys |-> 0], shares |-> [k \in Keys |-> 0],
+        cfg |-> [pb |-> "old", cp |-> "old"]]
 
 IngestA(S, w) ==
   LET k == M(w).key IN
-  IF S.reg[k] # None THEN [S EXCEPT !.reg[k].count = @ + 1]
+  IF M(w).src # "detector" /\ BlockedPhantom(S.cfg.pb) THEN S                       \* refused by ValidateRegistration
+  ELSE IF S.reg[k] # None THEN [S EXCEPT !.reg[k].count = @ + 1]
+  ELSE IF BlockedCovert(S.cfg.cp)
+    THEN [S EXCEPT !.reg[k] = [valid |-> FALSE, count |-> 1], !.tmo[k] = [old |-> FALSE, used |-> FALSE]]
   ELSE IF M(w).live
     THEN [S EXCEPT !.reg[k] = [valid |-> FALSE, count |-> 1], !.tmo[k] = [old |-> FALSE, used |-> FALSE]]
     ELSE [S EXCEPT !.reg[k] = [valid |-> TRUE, count |-> 1], !.tmo[k] = [old |-> FALSE, used |-> FALSE],
@@ -240,14 +289,15 @@ HandleA(S) ==
   IF S.reg[HK] # None /\ S.reg[HK].valid
     THEN [S EXCEPT !.tmo[HK].used = TRUE, !.upd[HK] = @ + 1]
     ELSE S
-ApplyA(S, p) == IF p \in Workers THEN IngestA(S, p) ELSE IF p = "S" THEN SweepA(S) ELSE HandleA(S)
+ReloadA(S) == [S EXCEPT !.cfg = [pb |-> "new", cp |-> "new"]]
+ApplyA(S, p) == IF p \in Workers THEN IngestA(S, p) ELSE IF p = "S" THEN SweepA(S) ELSE IF p = "R" THEN ReloadA(S) ELSE HandleA(S)
 
 RECURSIVE RunSerial(_, _)
 RunSerial(S, seq) == IF seq = <<>> THEN S ELSE RunSerial(ApplyA(S, Head(seq)), Tail(seq))
 SerialOutcomes == {RunSerial(St0, seq) : seq \in SetToSeqs(Procs)}
 
 Outcome == [reg |-> [k \in Keys |-> IF reg[k] = None THEN None ELSE [valid |-> reg[k].valid, count |-> reg[k].count]],
-            tmo |-> tmo, ann |-> ann, upd |-> upd, shares |-> shares]
+            tmo |-> tmo, ann |-> ann, upd |-> upd, shares |-> shares, cfg |-> cfg]
 
 \* ------------------------------ properties ------------------------------
 Serializable == AllDone => Outcome \in SerialOutcomes
